@@ -10,3 +10,23 @@ ENTRY = {
     "assumptions": ["honest_msgs_justified: no comparison failure at the producer (chain_split_halt alpha feature off); received PREPARE cores have non-zero value and round >= 1",
                     "termination under timely delivery is explored on sampled fault patterns, not proved"],
 }
+
+# round-timer stream and theorems (core/consensus/timer/roundtimer.go)
+from vlib import snippet_C04timer as _t
+ENTRY["streams"].append(_t.STREAM)
+ENTRY.setdefault("lean_props_extra", []).append(_t.EXTRA_LEAN)
+ENTRY["monitor_sigs"] += _t.MONITOR_SIG_PREFIXES
+ENTRY["trusted_base"] = ENTRY["trusted_base"] + _t.TRUSTED_BASE
+ENTRY["assumptions"] = ENTRY["assumptions"] + _t.ASSUMPTIONS
+
+# liveness core: good rounds decide (Proofs/QbftGoodRound.lean)
+ENTRY["lean_props_extra"].append("CharonV.Props.C04Live")
+ENTRY["level_text"] = ENTRY["level_text"].replace(
+    "Real-time termination (timely delivery",
+    "Liveness core proved on the implementation model for every n, leader function, oracle and per-member arrival order "
+    "(Props/C04Live.lean): good_round_1 / good_round_r — when the running members (>= quorum) get each phase's messages before any "
+    "timer fires, a round whose leader runs and has its proposal ends with every running member deciding it exactly once, also after "
+    "r-1 silent rounds; decides_within_rotation — such a round exists in every window of n consecutive rounds. Round timers "
+    "(Props/C04Timer.lean, 33 theorems: closed forms, shortest timeout per type, three_delays_fit, slot alignment and doubling of the "
+    "eager timer) tied by the roundtimer stream. The composition with partially progressed earlier rounds and wall-clock termination "
+    "(timely delivery")
